@@ -22,7 +22,13 @@ func (d *PathDecoder) LinksInFile(filename string) ([]lang.Link, error) {
 		return nil, err
 	}
 
-	body, err := d.bodyForFileAndPos(filename, f, hcl.InitialPos)
+	// the root body does not have to start at the beginning of the file
+	// (e.g. when the file begins with an inline comment)
+	startPos := hcl.InitialPos
+	if rootBody, ok := f.Body.(*hclsyntax.Body); ok {
+		startPos = rootBody.Range().Start
+	}
+	body, err := d.bodyForFileAndPos(filename, f, startPos)
 	if err != nil {
 		return nil, err
 	}
